@@ -218,7 +218,7 @@ pub fn mutate(rng: &mut Rng, data: &[u8]) -> Vec<u8> {
     d
 }
 
-fn sp_model(rng: &mut Rng, variant: usize) -> Vec<u8> {
+pub fn sp_model(rng: &mut Rng, variant: usize) -> Vec<u8> {
     use prost::Message;
     use sentencepiece_model::{ModelProto, NormalizerSpec, SentencePiece, TrainerSpec, Type};
     let mut m = ModelProto::default();
@@ -233,7 +233,20 @@ fn sp_model(rng: &mut Rng, variant: usize) -> Vec<u8> {
     }
     match variant % 7 {
         2 => m.pieces.push(piece("<0x4", 0.0, Type::Byte)),
-        3 => m.pieces.push(piece("<0xé>", 0.0, Type::Byte)),
+        3 => {
+            // a multi-byte character at every position of the `<0xNN>` form (the converter slices bytes 3..5)
+            let base: Vec<char> = "<0x41>".chars().collect();
+            let c = *rng.pick(&['é', '€', '😀', 'ÿ']);
+            let pos = rng.below(base.len() + 1);
+            let mut t: String = base[..pos].iter().collect();
+            t.push(c);
+            if rng.chance(1, 2) && pos < base.len() {
+                t.extend(base[pos + 1..].iter());
+            } else {
+                t.extend(base[pos..].iter());
+            }
+            m.pieces.push(piece(&t, 0.0, Type::Byte));
+        }
         4 => m.pieces.push(piece("", 0.0, Type::Byte)),
         5 => m.pieces.push(SentencePiece { piece: None, score: None, r#type: None }),
         6 => {
@@ -267,7 +280,7 @@ fn sp_model(rng: &mut Rng, variant: usize) -> Vec<u8> {
     m.encode_to_vec()
 }
 
-fn hf_json(rng: &mut Rng, variant: usize) -> Vec<u8> {
+pub fn hf_json(rng: &mut Rng, variant: usize) -> Vec<u8> {
     // mostly valid files: each gets at most two boundary tweaks (`odd` picks which)
     let odd = |rng: &mut Rng| rng.chance(1, 6);
     let big_id = if odd(rng) { *rng.pick(&["4294967295", "4294967294", "4294967296"]) } else { "6" };
@@ -297,6 +310,20 @@ fn hf_json(rng: &mut Rng, variant: usize) -> Vec<u8> {
             rng.chance(1, 2),
             rng.chance(1, 2)
         ));
+    }
+    if rng.chance(1, 2) {
+        // further added tokens whose ids collide with different vocabulary tokens: each must get a free id,
+        // the same one on every conversion
+        for (id, content) in [(2, "<z>"), (3, "<w>"), (4, "<v>")] {
+            if rng.chance(2, 3) {
+                added.push_str(&format!(
+                    r#",{{"id":{},"content":"{}","single_word":false,"lstrip":false,"rstrip":false,"normalized":false,"special":{}}}"#,
+                    id,
+                    content,
+                    rng.chance(1, 2)
+                ));
+            }
+        }
     }
     if odd(rng) {
         added.push_str(r#",{"id":9,"content":"","single_word":false,"lstrip":false,"rstrip":false,"normalized":false,"special":true}"#);
@@ -328,7 +355,7 @@ fn hf_json(rng: &mut Rng, variant: usize) -> Vec<u8> {
     .into_bytes()
 }
 
-fn tekken_json(rng: &mut Rng, variant: usize) -> Vec<u8> {
+pub fn tekken_json(rng: &mut Rng, variant: usize) -> Vec<u8> {
     let odd = |rng: &mut Rng| rng.chance(1, 6);
     let nspecial = if odd(rng) { *rng.pick(&[0usize, 1, 13, 15, 4294967295]) } else { 14 };
     let vs = if odd(rng) { *rng.pick(&[0usize, 1, 13, 14, 100, 4294967295, 4294967296]) } else { 14 + rng.range(1, 3) };
@@ -354,7 +381,7 @@ fn tekken_json(rng: &mut Rng, variant: usize) -> Vec<u8> {
     .into_bytes()
 }
 
-fn tiktoken_text(rng: &mut Rng, variant: usize) -> Vec<u8> {
+pub fn tiktoken_text(rng: &mut Rng, variant: usize) -> Vec<u8> {
     let mut s = String::new();
     let n = match variant % 4 {
         0 => 0,
@@ -373,14 +400,17 @@ fn tiktoken_text(rng: &mut Rng, variant: usize) -> Vec<u8> {
 }
 
 pub fn gen(rng: &mut Rng, thorough: bool, out: &mut Sink) {
+    let t0 = std::time::Instant::now();
+    let timing = std::env::var("KVH_TIMING").is_ok();
     let mut iso = Isolated::new();
-    // ---- structure-aware generated files of every format
+    // ---- structure-aware generated files of every format (loaded by 12 child processes in parallel)
     let n = if thorough { 3000 } else { 250 };
+    let mut cases: Vec<(String, String, Vec<u8>)> = Vec::new();
     for v in 0..n {
-        out.push(loadf_line(&mut iso, "sentencepiece", "generated", &sp_model(rng, v)));
-        out.push(loadf_line(&mut iso, "tokenizers", "generated", &hf_json(rng, v)));
-        out.push(loadf_line(&mut iso, "tekken", "generated", &tekken_json(rng, v)));
-        out.push(loadf_line(&mut iso, "tiktoken", "generated", &tiktoken_text(rng, v)));
+        cases.push(("sentencepiece".into(), "generated".into(), sp_model(rng, v)));
+        cases.push(("tokenizers".into(), "generated".into(), hf_json(rng, v)));
+        cases.push(("tekken".into(), "generated".into(), tekken_json(rng, v)));
+        cases.push(("tiktoken".into(), "generated".into(), tiktoken_text(rng, v)));
         let f = ["auto", "sentencepiece", "tokenizers", "tekken", "tiktoken"][v % 5];
         let base = match v % 4 {
             0 => sp_model(rng, v),
@@ -389,13 +419,47 @@ pub fn gen(rng: &mut Rng, thorough: bool, out: &mut Sink) {
             _ => tiktoken_text(rng, v),
         };
         let m = mutate(rng, &base);
-        out.push(loadf_line(&mut iso, f, "generated-mutated", &m));
-        out.push(loadf_line(&mut iso, "auto", "generated", &base));
+        cases.push((f.into(), "generated-mutated".into(), m));
+        cases.push(("auto".into(), "generated".into(), base));
     }
     for b in [vec![], vec![0u8], b"kitoken".to_vec(), b"kitoken\x00\x01".to_vec(), b"kitoken\x00\x02\x00".to_vec(), b"{}".to_vec(), b"[]".to_vec(), vec![0xff; 64]] {
         for f in ["auto", "sentencepiece", "tokenizers", "tekken", "tiktoken"] {
-            out.push(loadf_line(&mut iso, f, "boundary", &b));
+            cases.push((f.into(), "boundary".into(), b.clone()));
         }
+    }
+    {
+        let nthreads = 12;
+        let cases = std::sync::Arc::new(cases);
+        let mut handles = Vec::new();
+        for t in 0..nthreads {
+            let cases = cases.clone();
+            handles.push(std::thread::spawn(move || {
+                let mut iso = Isolated::new();
+                let mut res = Vec::new();
+                let mut i = t;
+                while i < cases.len() {
+                    let (f, what, bytes) = &cases[i];
+                    res.push((i, loadf_line(&mut iso, f, what, bytes)));
+                    i += nthreads;
+                }
+                (res, iso.crashes)
+            }));
+        }
+        let mut all: Vec<(usize, String)> = Vec::new();
+        let mut crashes = 0;
+        for h in handles {
+            let (res, c) = h.join().expect("thread");
+            all.extend(res);
+            crashes += c;
+        }
+        all.sort();
+        for (_, l) in all {
+            out.push(l);
+        }
+        out.add("child_crashes_generated", crashes);
+    }
+    if timing {
+        eprintln!("generated files: {:?}", t0.elapsed());
     }
     // ---- mutations and truncations of the shipped files (12 child processes in parallel)
     let per_file: u64 = if thorough { 400 } else { 16 };
@@ -449,6 +513,9 @@ pub fn gen(rng: &mut Rng, thorough: bool, out: &mut Sink) {
         out.push(l);
     }
     out.add("child_crashes_shipped", crashes);
+    if timing {
+        eprintln!("shipped mutations: {:?}", t0.elapsed());
+    }
     // ---- native files through the model: serialized generated definitions, mutated
     let ndefs = if thorough { 3000 } else { 200 };
     for k in 0..ndefs {
@@ -468,6 +535,9 @@ pub fn gen(rng: &mut Rng, thorough: bool, out: &mut Sink) {
         }
     }
     out.add("child_crashes", iso.crashes);
+    if timing {
+        eprintln!("native files: {:?}", t0.elapsed());
+    }
 }
 
 /// Native load: `Definition::from_slice` (native branch) then `Kitoken::from_definition`.
